@@ -109,6 +109,15 @@ pub enum ConcatHow {
   /// like `NestedTyped`, but the value is observed (size, source, hash, ==)
   /// after every `add`: a value under construction that is already in use
   AddObserved,
+  /// every child is added by `add` as its *concrete* type (`RawSource`,
+  /// `RawStringSource`, `RawBufferSource`, `OriginalSource`, typed
+  /// `ConcatSource`; everything else as `BoxSource`)
+  AddTyped,
+  /// like `AddTyped`, but other owners are alive while the value is built: a
+  /// clone of the half-built composite is taken after every `add`, and a second
+  /// handle to every boxed child is held across its `add`; all of them are
+  /// dropped when the build ends. What was built must not depend on that.
+  AddHeld,
 }
 
 #[derive(Clone, Debug, Serialize, Deserialize, PartialEq, Eq, Hash)]
@@ -529,6 +538,43 @@ impl Builder {
         for c in it {
           concat.add(self.build(c));
         }
+        concat
+      }
+      ConcatHow::AddTyped | ConcatHow::AddHeld => {
+        let held = matches!(how, ConcatHow::AddHeld);
+        let mut owners: Vec<ConcatSource> = vec![];
+        let mut handles: Vec<BoxSource> = vec![];
+        let mut concat = ConcatSource::default();
+        for c in children {
+          match c {
+            TreeSpec::Concat { children, how } => {
+              let inner = self.build_concat(children, how);
+              if held {
+                owners.push(inner.clone());
+              }
+              concat.add(inner);
+            }
+            TreeSpec::Raw { text } => concat.add(RawSource::from(text.clone())),
+            TreeSpec::RawBytes { bytes } => concat.add(RawSource::from(bytes.clone())),
+            TreeSpec::RawString { text } => concat.add(RawStringSource::from(text.clone())),
+            TreeSpec::RawBuffer { bytes } => concat.add(RawBufferSource::from(bytes.clone())),
+            TreeSpec::Original { text, name } => {
+              concat.add(OriginalSource::new(text.clone(), name.clone()))
+            }
+            other => {
+              let b = self.build(other);
+              if held {
+                handles.push(b.clone());
+              }
+              concat.add(b);
+            }
+          }
+          if held {
+            owners.push(concat.clone());
+          }
+        }
+        drop(owners);
+        drop(handles);
         concat
       }
       ConcatHow::NestedTyped | ConcatHow::AddObserved => {
